@@ -298,12 +298,13 @@ class LoadedMessageInterface(Protocol):
         ...
 
     @abstractmethod
-    def contains(self, value: bytes) -> bool:
+    def contains(self, value: bytes, *, body_only: bool = False) -> bool:
         """Check the body of the message for a sub-string. This may be
         optimized to only search headers and ``text/*`` MIME parts.
 
         Args:
             value: The sub-string to find.
+            body_only: Do not search the header of the message itself.
 
         """
         ...
